@@ -40,3 +40,6 @@ def reply(run, P):
 def relonce(run, P):
     from rules import r_relonce
     r_relonce.run(run, P)
+def outbound(run, P):
+    from rules import r_outbound
+    r_outbound.run(run, P)
